@@ -88,6 +88,18 @@ func SpecPrelude(p *Program, u *Universe) (text string, axiomNames []string, err
 			}
 			continue
 		}
+		if sf.Axiomatic {
+			var args []string
+			for _, prm := range sf.Params {
+				args = append(args, "x!"+prm.Name)
+			}
+			app := "(f." + name + " " + strings.Join(args, " ") + ")"
+			fmt.Fprintf(&b, "(declare-fun f.%s (%s) %s)\n", name, strings.Join(ps, " "), rs)
+			u.RelaxDef[fmt.Sprintf("(declare-fun f.%s (%s) %s)", name, strings.Join(ps, " "), rs)] =
+				fmt.Sprintf("(define-fun f.%s (%s) %s %s)", name, strings.Join(pdecl, " "), rs, body.T)
+			fmt.Fprintf(&b, "(assert (forall (%s) (! (= %s %s) :pattern (%s))))\n", strings.Join(pdecl, " "), app, body.T, app)
+			continue
+		}
 		kw := "define-fun"
 		if strings.Contains(body.T, "(f."+name+" ") {
 			kw = "define-fun-rec"
